@@ -781,6 +781,11 @@ func parseRawContent(decoder *xml.Decoder, content []byte, startOffset int64) (s
 	start := int(startOffset)
 	depth := 1
 	var end int
+	// Where the end tag being processed starts in the input. An end tag that does not match the
+	// innermost open element (HTML void elements written without "/": <br>, <img ...>, <meta ...>)
+	// makes the non-strict decoder report the open elements as closed first, one token at a time,
+	// without reading further; those tokens belong to the end tag that triggered them.
+	endTagStart := decoder.InputOffset()
 	for depth > 0 {
 		tokenStart := decoder.InputOffset()
 		tok, err := decoder.Token()
@@ -791,9 +796,12 @@ func parseRawContent(decoder *xml.Decoder, content []byte, startOffset int64) (s
 		case xml.StartElement:
 			depth++
 		case xml.EndElement:
+			if decoder.InputOffset() != tokenStart {
+				endTagStart = tokenStart
+			}
 			depth--
 			if depth == 0 {
-				end = int(tokenStart)
+				end = int(endTagStart)
 				break
 			}
 		}
